@@ -309,6 +309,16 @@ Theorem C02_holographic_target_chain_lexed_alone_same_shape :
     TokRoundTEx.hsh_lex cls (LexLinkTH3.chainT_text s ws T) = LexLinkTH3.chainT_shape s ws T.
 Proof. exact LexLinkTH3.hsh_lex_chainT. Qed.
 
+(* ... and the UNION class with chains ending in a section target  ["s"/\W1 ... /\Wn->§T]  at document level (Rt/LexLinkTH4*.v): hsh0 is ANY shape
+   oracle for which the textual side condition holds (e.g. LexLinkTH4.hsh_cls4), the semantic side hypotheses use "lex the raw text alone". *)
+From OV Require Rt.LexLinkTH4 Rt.LexLinkTH4Ex.
+Theorem C02_text_roundtrip_holographic_target_chains :
+  forall cls (hsh0 : str -> list sh) numcanon holo_ok strict sp d,
+    LexLinkTH4.coreth4_doc d = true -> LexLinkTH4.lex_safeth4_doc cls hsh0 d = true ->
+    TokRoundTHolo.nodes_side numcanon holo_ok ex_idnum (TokRoundTEx.hsh_lex cls) (dsections d) -> Forall (TokRoundT.field_num_ok numcanon) (dmeta d) ->
+    exists warns, parse_model cls numcanon holo_ok strict (lines_of (emit sp d)) = PRDoc d [] warns /\ Forall advisory warns.
+Proof. exact LexLinkTH4.text_roundtrip_coreth4_lex. Qed.
+
 (* ---- source-text pins (generated by harness/pinsets.py) ---- *)
 (* every function of these modules is, text for text (comments and docstrings excluded), the one the models of this
    property were written against and validated against: harness/translate/srcdigest_t.py, Src/Pin_*.v *)
